@@ -124,7 +124,7 @@ class ExecutorBase(FutureExecutor):
                 futures. Futures that are completed or running will not be
                 cancelled.
         """
-        if cancel_futures:
+        if cancel_futures and self._future_queue is not None:
             cancel_items_in_queue(que=self._future_queue)
         if self._process is not None:
             self._future_queue.put({"shutdown": True, "wait": wait})
